@@ -60,6 +60,15 @@ type c20Query struct {
 	Table string    `json:"table"` // table of the document; "" = dual
 	Where *Expr     `json:"where,omitempty"`
 	Items []c20Item `json:"items"`
+	// Limit / Offset (LimitComma: the `LIMIT off, n` spelling): a window over the rows the query returns. The variable
+	// model (Model/Vars.v) has no LIMIT clause and is given the query WITHOUT it: a window selects among the rows
+	// that were produced, it does not change which rows are evaluated, so the caller's map after the query — the
+	// observable the model is compared with — is that of the unwindowed query. The rows are tied in two steps, see
+	// Observe: the real engine also runs the unwindowed query from a copy of the same map; its rows go to the model,
+	// provided the windowed rows are exactly rows[offset : offset+limit] of them.
+	Limit      *int `json:"limit,omitempty"`
+	Offset     *int `json:"offset,omitempty"`
+	LimitComma bool `json:"limit_comma,omitempty"`
 }
 
 type c20In struct {
@@ -143,7 +152,25 @@ func (q c20Query) sql() string {
 	if q.Where != nil {
 		s += " WHERE " + q.Where.SQL()
 	}
-	return s
+	return s + (&Stmt{Limit: q.Limit, Offset: q.Offset, LimitComma: q.LimitComma}).limitSQL()
+}
+
+// c20Window is rows[offset : offset+limit] the way LIMIT / OFFSET cut a result (nothing when the offset is past the end)
+func c20Window(rows []any, limit, offset *int) []any {
+	off, n := 0, len(rows)
+	if offset != nil {
+		off = *offset
+	}
+	if limit != nil {
+		n = *limit
+	}
+	if off >= len(rows) {
+		return nil
+	}
+	if n > len(rows)-off {
+		n = len(rows) - off
+	}
+	return rows[off : off+n]
 }
 
 func coqRow(m map[string]any) string {
@@ -189,7 +216,7 @@ func (propC20) InputType() string      { return "C20Run.input" }
 func (propC20) ObsType() string        { return "C20Run.obs" }
 func (propC20) Exhaustive(string) bool { return false }
 func (propC20) Rule() string {
-	return "sequences of 1-4 queries sharing one caller map (empty or pre-populated; plus streams without WithVars / WithVars(nil)); each query: 1-5 select items (SETVAR / GETVAR / pure) over a 0-6 row table or dual, 1-3 literal keys plus keys taken from columns, values = literals, columns, arithmetic, counters SETVAR(k, GETVAR(k)+n1), copies, CASE; optional WHERE (pure or reading GETVAR('lim')); a systematic sweep of the SETVAR position x list length x row count; a look-alike stream (consecutive writes to one key of values that differ in kind but print the same under %v, across positions / rows / queries, compared type-exactly); two large tables (600 and 1100 rows: prev<-id chain and a counter); observable = rows of every query and the caller's map after every query (also after a failing one); non-trivial = the sequence has a SETVAR and a GETVAR item, some query returned at least one row and the map changed; distinct = distinct (document, map, queries)"
+	return "sequences of 1-4 queries sharing one caller map (empty or pre-populated; plus streams without WithVars / WithVars(nil)); each query: 1-5 select items (SETVAR / GETVAR / pure) over a 0-6 row table or dual, 1-3 literal keys plus keys taken from columns, values = literals, columns, arithmetic, counters SETVAR(k, GETVAR(k)+n1), copies, CASE; optional WHERE (pure or reading GETVAR('lim')); a systematic sweep of the SETVAR position x list length x row count; a look-alike stream (consecutive writes to one key of values that differ in kind but print the same under %v, across positions / rows / queries, compared type-exactly); two large tables (600 and 1100 rows: prev<-id chain and a counter); a window stream (LIMIT / OFFSET in both spellings, below / at / above the number of rows passing WHERE, over row- and history-dependent SETVARs; the model sees the query without its window, the real engine also runs it unwindowed and the windowed rows must be the window of those rows); observable = rows of every query and the caller's map after every query (also after a failing one); non-trivial = the sequence has a SETVAR and a GETVAR item, some query returned at least one row and the map changed; distinct = distinct (document, map, queries)"
 }
 
 func (propC20) Observe(raw json.RawMessage) (Observed, error) {
@@ -214,24 +241,59 @@ func (propC20) Observe(raw json.RawMessage) (Observed, error) {
 	for _, q := range in.Qs {
 		sql := q.sql()
 		sqls = append(sqls, sql)
-		var opts []genql.QueryOption
-		switch in.Mode {
-		case "map":
-			opts = append(opts, genql.WithVars(vars))
-		case "nil":
-			opts = append(opts, genql.WithVars(nil))
-		}
-		if in.Consts {
-			cm := map[string]any{"lim": float64(-5), "": "empty"}
-			for _, k := range c20Keys {
-				cm[k] = "constant-of-" + k
+		mkOpts := func(vars map[string]any) []genql.QueryOption {
+			var opts []genql.QueryOption
+			switch in.Mode {
+			case "map":
+				opts = append(opts, genql.WithVars(vars))
+			case "nil":
+				opts = append(opts, genql.WithVars(nil))
 			}
-			for k := range in.Vars {
-				cm[k] = float64(0.25)
+			if in.Consts {
+				cm := map[string]any{"lim": float64(-5), "": "empty"}
+				for _, k := range c20Keys {
+					cm[k] = "constant-of-" + k
+				}
+				for k := range in.Vars {
+					cm[k] = float64(0.25)
+				}
+				opts = append(opts, genql.WithConstants(cm), genql.UnReportedErrors(func(error) {}), genql.CompletedCallback(func() {}))
 			}
-			opts = append(opts, genql.WithConstants(cm), genql.UnReportedErrors(func(error) {}), genql.CompletedCallback(func() {}))
+			return opts
 		}
-		out := runEngine(doc, sql, opts...)
+		var varsBefore map[string]any
+		if q.Limit != nil && vars != nil {
+			varsBefore = deepCopy(anyMapOrNil(vars)).(map[string]any)
+		}
+		out := runEngine(doc, sql, mkOpts(vars)...)
+		var windowed any
+		if q.Limit != nil {
+			windowed = jsonSafe(anySlice(out.Rows))
+			if q.Offset != nil && *q.Offset < 0 || *q.Limit < 0 {
+				return Observed{}, fmt.Errorf("negative LIMIT / OFFSET")
+			}
+			// the same query without its window, from a copy of the map as it was: its rows are what the model is asked
+			// about, once the windowed rows have been seen to be exactly their window. The map stays the windowed run's.
+			tags = append(tags, "window:limit")
+			if q.Offset != nil {
+				tags = append(tags, "window:offset")
+			}
+			ref := q
+			ref.Limit, ref.Offset = nil, nil
+			all := runEngine(deepCopy(in.Doc).(map[string]any), ref.sql(), mkOpts(varsBefore)...)
+			if out.Class == "ok" && all.Class == "ok" {
+				if len(all.Rows) > len(out.Rows) {
+					tags = append(tags, "window:cuts-rows")
+				}
+				if coqEngineObs(engineOut{Class: "ok", Rows: c20Window(all.Rows, q.Limit, q.Offset)}) == coqEngineObs(out) {
+					out.Rows = all.Rows
+				} else {
+					// reported as a mismatch whatever the model says: no model row equals the marker
+					tags = append(tags, "window:rows-are-not-the-window")
+					out.Rows = append(append([]any{}, out.Rows...), "<<not the window of the unwindowed rows>>")
+				}
+			}
+		}
 		snap := deepCopy(anyMapOrNil(vars))
 		store := "None"
 		if in.Mode == "map" {
@@ -246,8 +308,13 @@ func (propC20) Observe(raw json.RawMessage) (Observed, error) {
 		if out.Class != "ok" {
 			sawErr = true
 		}
-		notes = append(notes, map[string]any{"sql": sql, "class": out.Class, "err": out.Err,
-			"rows": jsonSafe(anySlice(out.Rows)), "vars_after": jsonSafe(snap)})
+		note := map[string]any{"sql": sql, "class": out.Class, "err": out.Err,
+			"rows": jsonSafe(anySlice(out.Rows)), "vars_after": jsonSafe(snap)}
+		if q.Limit != nil {
+			// "rows" are then the rows of the unwindowed run (what the model is asked about)
+			note["rows_returned_with_the_window"] = windowed
+		}
+		notes = append(notes, note)
 	}
 	if sawErr {
 		tags = append(tags, "seq:has-error")
@@ -575,6 +642,16 @@ func (g *c20Gen) query(tables []string, allowErr bool) c20Query {
 			}
 		}
 	}
+	if q.Table != "" && r.Chance(10) {
+		g.tag("window:random")
+		l := r.Intn(5)
+		q.Limit = &l
+		if r.Bool() {
+			o := r.Intn(4)
+			q.Offset = &o
+			q.LimitComma = r.Bool()
+		}
+	}
 	return q
 }
 
@@ -788,6 +865,64 @@ func genC20(r *Rand, tier string) []Case {
 					mk(c20In{Doc: doc, Mode: "map", Vars: map[string]any{}, Qs: []c20Query{
 						{Table: "t", Items: []c20Item{get("prev"), set(Col("mix")), get("seen")}},
 						{Table: "t", Items: []c20Item{get("after")}}}}, tagsFor("rows"), nrows > 1)
+				}
+			}
+		}
+	}
+	// (1e) windows: LIMIT / OFFSET (both spellings) smaller than, equal to and larger than the number of rows that pass
+	// WHERE, over select lists whose SETVAR values depend on the row (last id) or on the history (a counter, a running
+	// sum, the previous row's id): every row that passes WHERE is evaluated, in source order, whether or not the window
+	// keeps it; a later query over the same map (windowed itself) reads the last values
+	wreps := 1
+	if tier == "thorough" {
+		wreps = 8
+	}
+	for rep := 0; rep < wreps; rep++ {
+		for nrows := 1; nrows <= 5; nrows++ {
+			for lim := 0; lim <= nrows+1; lim++ {
+				for _, off := range []int{-1, 0, 1, nrows - 1, nrows + 1} {
+					if off > nrows+1 || (off == nrows-1 && off <= 1) {
+						continue
+					}
+					rows := make([]any, nrows)
+					for i := range rows {
+						rows[i] = map[string]any{"id": float64(i + 1), "n1": Pick(r, numPool), "s1": Pick(r, []string{"a", "b"})}
+					}
+					items := []c20Item{{K: "pure", E: Col("id"), Name: "id"}}
+					for _, it := range []c20Item{
+						{K: "set", Key: Str("last"), E: Col("id")},
+						{K: "set", Key: Str("n"), E: &Expr{K: "case", Whens: [][2]*Expr{{&Expr{K: "is", Op: "NULL", A: call("GETVAR", Str("n"))}, Num(1)}}, Else: Bin("+", call("GETVAR", Str("n")), Num(1))}},
+						{K: "get", Key: Str("last"), Name: "seen"},
+						{K: "set", Key: Str("sum"), E: Bin("+", call("GETVAR", Str("sum")), Col("n1"))},
+						{K: "get", Key: Str("n"), Name: "cnt"},
+						{K: "set", Key: Col("s1"), E: Col("id")},
+					} {
+						if r.Chance(55) {
+							items = append(items, it)
+						}
+					}
+					if len(items) == 1 {
+						items = append(items, c20Item{K: "set", Key: Str("last"), E: Col("id")})
+					}
+					l := lim
+					q := c20Query{Table: "t", Items: items, Limit: &l}
+					if off >= 0 {
+						o := off
+						q.Offset = &o
+						q.LimitComma = r.Bool()
+					}
+					if r.Chance(25) {
+						q.Where = Cmp(Pick(r, []string{">", "<=", "!="}), Col("id"), Num(float64(r.Intn(nrows+1))))
+					}
+					one := 1
+					after := c20Query{Table: "t", Items: []c20Item{{K: "get", Key: Str("last"), Name: "last"}, {K: "get", Key: Str("n"), Name: "n"},
+						{K: "get", Key: Str("sum"), Name: "sum"}, {K: "get", Key: Str("a"), Name: "a"}}}
+					if r.Bool() {
+						after.Limit = &one
+					}
+					mk(c20In{Doc: map[string]any{"t": rows}, Mode: "map", Vars: map[string]any{"sum": 0.0}, Qs: []c20Query{q, after}},
+						map[string]bool{"stream:window": true, fmt.Sprintf("tablerows:%d", nrows): true,
+							fmt.Sprintf("window:limit%s", map[bool]string{true: "<rows", false: ">=rows"}[lim < nrows]): true}, nrows > 1)
 				}
 			}
 		}
